@@ -14,6 +14,9 @@ from ..render import COMMA, END, I, K, L, LP, N, RP, T, V, plist, render_script
 
 KEY_POOL = [(None, "t"), ("a", "t"), ("b", "t"), ("a", "u"), (None, "u"), ("S1", "Orders"), ("b", "Orders"), (None, "Orders")]
 BASE_COLS = [("id", "int", None), ("name", "varchar", [10]), ("Code", "int", None), ("amt", "decimal", [10, 2]), ("note_x", "text", None)]
+# keyword-shaped column names: legal in CREATE TABLE and in index column lists (C06); ALTER operands reject many keywords, so
+# these columns are only ever named by CREATE INDEX statements
+KW_COLS = [("type", "int", None), ("comment", "text", None), ("default", "int", None), ("tag", "int", None)]
 SPELL = ["plain", "upper", "lower", "dq", "br", "bt", "dq_upper", "br_lower"]
 OP_KINDS = ["add", "drop", "rename", "modify", "pk", "uq", "check", "default", "fk", "index"]
 
@@ -41,10 +44,14 @@ def case_strategy(draw, max_ops):
     keys = list(draw(st.permutations(KEY_POOL)))[:nk]
     tables = []
     live = {}
+    kwcols = {}
     for sch, tn in keys:
         ncol = draw(st.integers(2, 5))
-        tables.append({"schema": sch, "name": tn, "cols": [list(c) for c in BASE_COLS[:ncol]]})
-        live[(sch, tn)] = [c[0] for c in BASE_COLS[:ncol]]
+        cols = [list(c) for c in BASE_COLS[:ncol]]
+        kw = [list(c) for c in KW_COLS[:draw(st.sampled_from([0, 0, 1, 2]))]]
+        tables.append({"schema": sch, "name": tn, "cols": cols + kw})
+        live[(sch, tn)] = [c[0] for c in cols]
+        kwcols[(sch, tn)] = [c[0] for c in kw]
     ops = []
     for j in range(draw(st.integers(0, max_ops))):
         ti = draw(st.integers(0, nk - 1))
@@ -91,10 +98,12 @@ def case_strategy(draw, max_ops):
             op["cname"] = draw(st.sampled_from([None, "df%d" % j]))
             op["value"] = draw(st.sampled_from(["0", "'z'", "7", "'a b'"])) if op["cname"] else draw(st.sampled_from(["'z'", "'a b'"]))
         elif kind == "index":
-            k = draw(st.integers(1, min(3, len(names))))
-            cs = list(draw(st.permutations(names)))[:k]
+            pool = names + kwcols[(sch, tn)]
+            k = draw(st.integers(1, min(3, len(pool))))
+            cs = list(draw(st.permutations(pool)))[:k]
             op["name"] = "ix%d" % j
             op["unique"] = draw(st.booleans())
+            op["clustered"] = (not op["unique"]) and draw(st.integers(0, 3)) == 0
             op["cols"] = [[c, draw(st.sampled_from([None, "ASC", "DESC"])), draw(st.sampled_from([None, None, "FIRST", "LAST"]))] for c in cs]
         ops.append(op)
     undefined = None
@@ -125,7 +134,7 @@ def alt_head(case, op):
 def op_tokens(case, op):
     kind = op["kind"]
     if kind == "index":
-        toks = K("CREATE") + (K("UNIQUE") if op["unique"] else []) + K("INDEX") + [I(op["name"])] + K("ON") + [target(case, op)]
+        toks = K("CREATE") + (K("UNIQUE") if op["unique"] else []) + (K("CLUSTERED") if op.get("clustered") else []) + K("INDEX") + [I(op["name"])] + K("ON") + [target(case, op)]
         items = []
         for c, order, nulls in op["cols"]:
             it = [I(c)]
